@@ -47,6 +47,9 @@ pub enum Step {
     OpenOk,
     Close { code: u16, text: String },
     Heartbeat,
+    /// a heartbeat frame on a channel other than 0 (round 7): not the frame the handshake may
+    /// skip, but an out-of-order frame like any other
+    HeartbeatOn { ch: u16 },
     /// any other method (out of order / steady state), on channel 0 or 1
     Other { idx: u8, args: MArgs, ch1: bool },
     /// a content frame
@@ -199,7 +202,7 @@ impl Model {
                 }
                 _ => Some(vec![Want::FrameUnexpected]),
             },
-            Step::Other { .. } | Step::ContentHeader => Some(vec![Want::FrameUnexpected]),
+            Step::Other { .. } | Step::ContentHeader | Step::HeartbeatOn { .. } => Some(vec![Want::FrameUnexpected]),
         }
     }
 }
@@ -236,6 +239,7 @@ fn step_bytes(s: &Step) -> Option<Vec<u8>> {
             })),
         )),
         Step::Heartbeat => encode(&AMQPFrame::Heartbeat(0)),
+        Step::HeartbeatOn { ch } => vec![8, (*ch >> 8) as u8, *ch as u8, 0, 0, 0, 0, 0xCE],
         Step::Other { idx, args, ch1 } => {
             let m = make(*idx as usize, args);
             encode(&AMQPFrame::Method(if *ch1 { 1 } else { 0 }, m))
@@ -626,6 +630,7 @@ fn strat(_t: Tier) -> BoxedStrategy<Case> {
             let close = (any::<u16>(), gen::short_string()).prop_map(|(code, text)| Step::Close { code, text });
             let noise = prop_oneof![
                 3 => Just(Step::Heartbeat),
+                1 => prop_oneof![Just(1u16), 1u16..=u16::MAX].prop_map(|ch| Step::HeartbeatOn { ch }),
                 1 => gen::long_string().prop_map(|challenge| Step::Secure { challenge }),
                 1 => close.clone(),
                 2 => (0u8..(N_METHODS as u8), crate::checks::c06::margs(), any::<bool>()).prop_map(|(idx, args, ch1)| Step::Other { idx, args, ch1 }),
@@ -672,7 +677,7 @@ fn strat(_t: Tier) -> BoxedStrategy<Case> {
 pub fn parts() -> Vec<Box<dyn PartDyn>> {
     vec![Box::new(Part::<Case> {
         name: "e2e",
-        rule: "client options (PLAIN with arbitrary user/password, EXTERNAL, a custom Sasl implementation, locale, virtual host, information, tuning values, connection_timeout none / 40-240 ms / one case in fourteen at the top of Duration's range, one in fourteen zero) x a scripted server: the happy path Start(mechanism and locale lists incl. near-miss tokens)/Tune/OpenOk-or-Close with 0-2 deviations spliced in (heartbeats, Secure, Close, any of the 64 methods on channel 0/1, a content header, a malformed frame, EOF, an I/O error, silence), every server frame optionally cut into 1-8 byte segments; oracle: a reference model of the handshake gives the exact client frames (StartOk fields incl. capabilities/information, TuneOk per the C15 spec, Open vhost, CloseOk) and the result (Ok only after OpenOk, then usable and exposing Start's server properties; otherwise the specific error; InvalidCredentials also accepted for silence / socket errors / malformed data while waiting for the reply to StartOk); the timeout error may not come before the timeout; non-trivial = deviation after at least one correct step, or frames cut into segments; distinct by case hash",
+        rule: "client options (PLAIN with arbitrary user/password, EXTERNAL, a custom Sasl implementation, locale, virtual host, information, tuning values, connection_timeout none / 40-240 ms / one case in fourteen at the top of Duration's range, one in fourteen zero) x a scripted server (heartbeat frames on channel 0, which the handshake skips, and on a non-zero channel, which are out of order): the happy path Start(mechanism and locale lists incl. near-miss tokens)/Tune/OpenOk-or-Close with 0-2 deviations spliced in (heartbeats, Secure, Close, any of the 64 methods on channel 0/1, a content header, a malformed frame, EOF, an I/O error, silence), every server frame optionally cut into 1-8 byte segments; oracle: a reference model of the handshake gives the exact client frames (StartOk fields incl. capabilities/information, TuneOk per the C15 spec, Open vhost, CloseOk) and the result (Ok only after OpenOk, then usable and exposing Start's server properties; otherwise the specific error; InvalidCredentials also accepted for silence / socket errors / malformed data while waiting for the reply to StartOk); the timeout error may not come before the timeout; non-trivial = deviation after at least one correct step, or frames cut into segments; distinct by case hash",
         cases: |t| t.pick(6000, 100_000),
         threads: 16,
         strategy: strat,
